@@ -36,6 +36,34 @@ CLAIMED = {
    technique="bounded-exhaustive generation of LDS files from abstract values (optional-field subsets, repetition 0..3) with the expected view computed from the abstract value, compared field by field with the real constructors; full wrong-DG pairing matrix",
    text="Every generated well-formed file of the 13 LDS file types (all 2^13 DG11 subsets in thorough, COM tag subsets, DG2 with 1..3 templates in both biometric encodings, ...) is parsed by the real constructor and its view compared with the expectation computed from the abstract value (no second parser); parse twice = equal views; buffer aliasing; every file x every other constructor/DG number rejected; identity-summary precedence on an 8064-document product.",
    note="generators only emit forms whose rendering ICAO 9303-10 fixes; Age/PossibleAges (clock) excluded; ISO/IEC 19794-5 feature-point layout from recollection of the standard (see known finding)"),
+ "C01": dict(level="model_checking", ref="§4 C01",
+   technique="explicit-state BFS over a symbolic Dolev-Yao-style attacker (provenance tuples, ground truth = function of the tuple), every state concretised to real bytes and run through the real PassiveAuth; plus region-aware exhaustive byte sweep over every authenticated byte",
+   text="BFS to depth 3 (thorough 4) over attacker actions on {DGs, hash list, messageDigest, signed attributes, signature, DS certificate, trust store, DG1 state}; every reached state is built with refpki and validated on the real passiveauth.PassiveAuth / CardSecurity / master-list paths; soundness oracle Success => tuple valid. Byte sweep: every byte of every authenticated region (eContent, signed attributes, signature, DS TBS and signature, every DG) x 8 bit flips (thorough: 255 substitutions) must not be accepted; ECDSA (r,s) range classes.",
+   note="the attacker never holds genuine private keys; cryptographic forgery is not searched; unauthenticated bytes (outer wrappers, SID, unsigned algorithm identifiers) are excluded from the soundness oracle"),
+ "C04": dict(level="model_checking", ref="§4 C04",
+   technique="stateless exploration of the real pace.DoPACE against the independent chip: all 77 configurations, explorer-owned randomness (scalar alphabet in full product, searched leading-zero slices), one-deviation enumeration of every altered chip message, exhaustive ordered-subset enumeration for protocol selection",
+   text="Every PACE configuration (11 parameter ids x 7 suites) x passwords x scalar/nonce alphabet incl. the slices where the shared or a transmitted coordinate has a leading zero octet; success = both sides hold the same keys and counter (decided by a protected read). Fail-closed: wrong password, every bit of the encrypted nonce, 6 replacements of each public key, every bit of token and of the encrypted chip-authentication data. Selection: all ordered subsets (<=3) of a 7-entry PACEInfo alphabet.",
+   note="refchip PACE per ICAO 9303-11 §4.4 with TR-03111 FE2OS; own EC arithmetic self-checked; scalars outside the alphabet are not covered"),
+ "C05": dict(level="model_checking", ref="§4 C05",
+   technique="stateless exploration of the real bac.DoBAC against the independent chip: MRZ shape enumeration x full product of the random alphabet; one-deviation enumeration of hostile EXTERNAL AUTHENTICATE answers (all single-bit flips + structural kinds)",
+   text="MRZ shapes of all three layouts (document numbers 1..max incl. extended, fillers) x {00,FF,pattern}^4 randoms x two password routes against a chip keyed from the printed MRZ by the reference KDF; success = mutual authentication + protected read + equal SSC. Hostile: every bit of the 40-byte cryptogram and SW, MAC under other keys, other run, RND.IFD / RND.IC not echoed (every bit), wrong lengths => no success and no session.",
+   note="reference KDF/3DES/retail MAC anchored to ICAO 9303-11 App. D.2/D.3"),
+ "C06": dict(level="model_checking", ref="§4 C06",
+   technique="stateless exploration of full reads (real Reader -> chipauth / PACE-CAM) against the independent chip over the complete configuration lattice, terminal scalar alphabet incl. leading-zero slice, and an enumerated menu of impostor strategies",
+   text="11 curves x named/explicit x 4 ciphers x 4 key-id arrangements x {BAC,PACE}: success, key switch on the chip, two further protected reads under the new keys with equal restarted counters. Impostors without the private key answering the probe in 7 ways, and a CAM impostor with a non-certified key, are never reported successful.",
+   note="refchip CA per TR-03110 (key switch after the response, SSC restart); discrete log not searched"),
+ "C07": dict(level="exploration", ref="§4 C07",
+   technique="bounded-exhaustive enumeration of genuine responses from an independent signer and of every single-bit mutation of signature and challenge; end-to-end enumeration of the challenge plumbing against the chip and the offline verifier",
+   text="RSA ISO 9796-2 DS1 (7 modulus sizes incl. odd bit lengths x 5 trailers x 5 M1 shapes x 3 challenges) and ECDSA (11 curves x plain/DER x named/explicit) genuine => accepted; every signature bit, every challenge bit, other key => rejected. Caller challenge reaches the chip and the evidence; the verifier hard-fails for every one-bit neighbour of the recorded nonce and only for those.",
+   note="independent signers self-tested against crypto/rsa and crypto/ecdsa; only byte-aligned representatives demanded for odd moduli"),
+ "C09": dict(level="exploration", ref="§4 C09",
+   technique="configuration-matrix enumeration: every point of the issuing-profile matrix issued by the independent PKI and verified by the real PassiveAuth",
+   text="CSCA key (13) x DS key (26 incl. explicit parameters) x digest (5) triples in full, one-factor variation of SID form, LDS version, encoding (DER / three indefinite forms), signing time forms and the invariances (RDN order, string types, extra certificates, same-SKI anchors, CardSecurity) in quick; thorough = full product x variants (68k documents). Oracle: Success.",
+   note="refpki output self-tested against crypto/x509, crypto/rsa, crypto/ecdsa; random key material replaced by deterministic keys"),
+ "C15": dict(level="exploration", ref="§4 C15",
+   technique="bounded-exhaustive enumeration: every subset of the 14 file types x every evidence subset round-tripped; every byte position x 255 values, every truncation and 256 extensions of representative blobs; forged magics/versions",
+   text="All 16 384 file subsets x 8 evidence subsets export/import with byte-identical files, equal parsed views and evidence values (expected values are what the harness put in); 35 blobs (quick) swept completely: each single-byte change is rejected or imports identical content; foreign magic and newer versions rejected at every nesting level.",
+   note="file contents from the reflds generators; views compared by reflect.DeepEqual against a stable double parse"),
 }
 PENDING_REASON = "check not built yet in this session (planned in DESIGN.md §4); no claim is made until its machinery exists and is green on the unchanged tree"
 
